@@ -54,7 +54,7 @@ CLAIMED["C03"] = (
     "evaluation; masking off / no box -> box irrelevant; incomparable (NaN) coordinates are not outside; closed edges are inside (Preorder) "
     "and not-outside <-> inside the closed box (LinearOrder); batches are pointwise maps; set/get round trip in (x,y,..) order; wrong "
     "dimensionality rejected. Tied to gwcs by a bit-exact correspondence (IEEE bit patterns, Lean Float instance) over boxes x fills x "
-    "flags x points at the edges and one ulp either side x array shapes, plus an independent oracle and read-back of the box after evaluation.",
+    "flags x points at the edges and one ulp either side x array shapes, plus an independent oracle and read-back of the box after evaluation. Storage order: a box kept in astropy's own (last input first) order - set on the model, inherited, or copied between WCSs - is read, masked and reported per input axis (toF_modelBox, copy_preserves_axes, mask_order_independent), and re-reading its own tuple as (x, y, ...) or flipping its order flag transposes a non-symmetric box (own_reading_transposes, flip_changes_reading).",
     "Trusted: Lean kernel; standard axioms; correspondence harness; astropy ModelBoundingBox.evaluate is modelled (its comparison mirrored).",
     "Lean 4 proof over order-axiom-free model + bit-exact differential correspondence", "DESIGN.md §6 C03")
 
